@@ -299,7 +299,17 @@ impl Sink {
         self.raw(&o.ops_text.clone(), &o.obs_text.clone());
         self.seq_text.push_str(&line.text());
         self.seq_text.push('\n');
-        let mut fails = monitors::check_outcome(&o, self.ovh, self.vsz);
+        // the reference computations run on whatever state the real code produced; if that state is broken
+        // beyond what they anticipate, a panic of the *harness* must not end the run (it would look like a
+        // crash of the real code to every check): it is recorded and the line has no monitor verdict
+        let (ovh, vsz) = (self.ovh, self.vsz);
+        let mut fails = match std::panic::catch_unwind(std::panic::AssertUnwindSafe(|| monitors::check_outcome(&o, ovh, vsz))) {
+            Ok(f) => f,
+            Err(_) => {
+                writeln!(self.mon, "MONPANIC line={} :: the harness's own reference computation panicked on `{}` (pre-state outside its domain); no monitor verdict for this line", self.line_no, line.text()).unwrap();
+                Vec::new()
+            }
+        };
         if o.injected.is_some() {
             self.after_panic = true;
             fails.extend(monitors::check_panic(&o));
